@@ -52,3 +52,32 @@ def c06_markers_or_vararg_defaults(v):
     """C06 #10: the definition parser drops the keyword-only / positional-only markers and pairs defaults after appending *args."""
     w = _c06(v)
     return bool(w) and ("*, " in w[0] or "/" in w[0] or ("*args" in w[0] and "=" in w[0]))
+
+
+def c07_all_exports(v):
+    """C07 #17: froms_to_imports / expand_star_imports do not treat names listed in __all__ as used."""
+    w = v.get("witness")
+    if not (isinstance(w, (list, tuple)) and len(w) == 2 and isinstance(w[1], str)):
+        return False
+    return "__all__" in w[1] and w[0] in ("froms_to_imports", "expand_star_imports") and \
+        ("__all__" in (v.get("clause") or "") or "second time" in (v.get("clause") or ""))
+
+
+def c07_order_dependent_selection(v):
+    """C07 #16: with `import pkg.X` and `import pkg.Y` where only `pkg` / `pkg.Y...` is used, which statement provides `pkg` depends on the order,
+    and sorting changes the order: the second organize drops an import the first kept."""
+    w = v.get("witness")
+    if not (isinstance(w, (list, tuple)) and len(w) == 2 and isinstance(w[1], str)):
+        return False
+    src = w[1]
+    return w[0] == "organize_imports" and "second time" in (v.get("clause") or "") and src.count("import pkg") >= 2
+
+
+def c07_star_plus_alias(v):
+    """C07: a star import next to an aliased import of the same module: the aliased names are treated as provided by the star import
+    (`from pkg.mod import a as aa, b` + `from pkg.mod import *`, using aa -> the aliased import is dropped: NameError), and froms_to_imports on
+    `from pkg.mod import *` + `import pkg.mod as pm` is not idempotent."""
+    w = v.get("witness")
+    if not (isinstance(w, (list, tuple)) and len(w) == 2 and isinstance(w[1], str)):
+        return False
+    return "import *" in w[1] and " as " in w[1]
